@@ -539,7 +539,7 @@ def check(res, tier, seed):
                       dict(kind="ep", calls=r["calls"], choices=choices_of(r)), no_failing_input=(monitor_hits == 0))
     if pid in ("C03", "C05", "C12", "C15"):
         from . import locksets
-        srecs2, src2, sout2 = C.run_job(binary, wd, "stress", dict(family="bcast-stress", seed=seed, n=(60000 if tier == "quick" else 1500000)), timeout=600)
+        srecs2, src2, sout2 = C.run_job(binary, wd, "stress", dict(family="bcast-stress", seed=seed, n=(60000 if tier == "quick" else 1500000), params=dict(budget_s=(40 if tier == "quick" else 150))), timeout=900)
         if src2 != 0 and pid in ("C05", "C03", "C15"):
             monitor_hits += 1
             line = next((l for l in sout2.splitlines() if l.startswith("panic:") or "fatal error" in l), (sout2.strip().splitlines() or ["?"])[-1])
